@@ -30,16 +30,20 @@ type cliCase struct {
 	Sub   string   `json:"sub"` // "sites" | "seqs"
 	Alpha string   `json:"alphabet"`
 	Rows  []string `json:"rows"`
-	Char  string   `json:"char"` // value of --char: GAP, -, MAJ or characters; "" = flag absent (default GAP)
-	P     int      `json:"p"`
-	Q     int      `json:"q"`
-	NoCut bool     `json:"no_cutoff_flag"` // -c absent: default 0
-	Ends  bool     `json:"ends"`
-	IC    bool     `json:"ignore_case"`
-	IG    bool     `json:"ignore_gaps"`
-	IN    bool     `json:"ignore_n"`
-	Rev   bool     `json:"reverse"`
-	Quiet bool     `json:"quiet"`
+	// More: further alignments of the same input file (multi-dataset Phylip, read with -p, as produced
+	// by goalign build seqboot); every clause is judged per alignment
+	More   [][]string `json:"more,omitempty"`
+	Phylip bool       `json:"phylip"`
+	Char   string     `json:"char"` // value of --char: GAP, -, MAJ or characters; "" = flag absent (default GAP)
+	P      int        `json:"p"`
+	Q      int        `json:"q"`
+	NoCut  bool       `json:"no_cutoff_flag"` // -c absent: default 0
+	Ends   bool       `json:"ends"`
+	IC     bool       `json:"ignore_case"`
+	IG     bool       `json:"ignore_gaps"`
+	IN     bool       `json:"ignore_n"`
+	Rev    bool       `json:"reverse"`
+	Quiet  bool       `json:"quiet"`
 }
 
 var reStart = regexp.MustCompile(`number of start [^=\n]*=(\d+)`)
@@ -65,22 +69,34 @@ func genCLI(t *rapid.T) cliCase {
 	var c cliCase
 	c.Sub = rapid.SampledFrom([]string{"sites", "sites", "seqs"}).Draw(t, "sub")
 	c.Alpha = rapid.SampledFrom([]string{"nt", "aa"}).Draw(t, "alphabet")
-	c.Rows = genRows(t, c.Alpha, 8, 12)
-	if c.Alpha == "aa" {
-		// make the detected alphabet protein
-		has := false
-		for _, r := range c.Rows {
-			if strings.ContainsAny(r, "Ll") {
-				has = true
+	one := func() []string {
+		rows := genRows(t, c.Alpha, 8, 12)
+		if c.Alpha == "aa" {
+			// make the detected alphabet protein
+			has := false
+			for _, r := range rows {
+				if strings.ContainsAny(r, "Ll") {
+					has = true
+				}
+			}
+			if !has {
+				i := rapid.IntRange(0, len(rows)-1).Draw(t, "Li")
+				j := rapid.IntRange(0, len(rows[0])-1).Draw(t, "Lj")
+				b := []byte(rows[i])
+				b[j] = 'L'
+				rows[i] = string(b)
 			}
 		}
-		if !has {
-			i := rapid.IntRange(0, len(c.Rows)-1).Draw(t, "Li")
-			j := rapid.IntRange(0, len(c.Rows[0])-1).Draw(t, "Lj")
-			b := []byte(c.Rows[i])
-			b[j] = 'L'
-			c.Rows[i] = string(b)
+		return rows
+	}
+	c.Rows = one()
+	if rapid.IntRange(0, 2).Draw(t, "multi-alignment") != 1 {
+		c.Phylip = true
+		for k := rapid.IntRange(1, 2).Draw(t, "more"); k > 0; k-- {
+			c.More = append(c.More, one())
 		}
+	} else {
+		c.Phylip = rapid.IntRange(0, 3).Draw(t, "phylip1") == 2
 	}
 	hint := len(c.Rows)
 	if c.Sub == "seqs" {
@@ -128,11 +144,24 @@ func TestCLI(t *testing.T) {
 	}
 	dir := cli.TempDir("c12cli")
 	pbt.Run(t, genCLI, func(c cliCase) (o pbt.Outcome, err error) {
+		all := append([][]string{c.Rows}, c.More...)
 		var rows []gen.Row
 		for i, r := range c.Rows {
 			rows = append(rows, gen.Row{Name: nameOf(i), Seq: r})
 		}
-		in := cli.TempFile(dir, ".fa", cli.Fasta(rows))
+		var in string
+		if c.Phylip {
+			var sb strings.Builder
+			for _, al := range all {
+				fmt.Fprintf(&sb, " %d %d\n", len(al), len(al[0]))
+				for i, r := range al {
+					sb.WriteString(nameOf(i) + "  " + r + "\n")
+				}
+			}
+			in = cli.TempFile(dir, ".phy", sb.String())
+		} else {
+			in = cli.TempFile(dir, ".fa", cli.Fasta(rows))
+		}
 		posK := filepath.Join(dir, filepath.Base(in)+".kept")
 		posR := filepath.Join(dir, filepath.Base(in)+".rm")
 		defer os.Remove(in)
@@ -156,6 +185,11 @@ func TestCLI(t *testing.T) {
 		if c.Sub == "sites" {
 			args = append(args, "--positions", posK, "--positions-rm", posR)
 		}
+		if c.Phylip {
+			args = append(args, "-p", "--one-line", "--no-block")
+			o.Class("input=phylip")
+		}
+		o.Class("alignments-in-file=%d", len(all))
 		r := cli.Run("", args...)
 		isGap := c.Char == "" || c.Char == "GAP" || c.Char == "-"
 		o.Class("cmd=clean %s", c.Sub)
@@ -193,82 +227,179 @@ func TestCLI(t *testing.T) {
 			o.Ambiguous++
 			return o, nil
 		}
-		got, perr := cli.ParseFasta(r.Stdout)
-		if perr != nil {
-			return o, fmt.Errorf("goalign %v: unreadable output: %v", args, perr)
-		}
-		if c.Sub == "sites" {
-			sc := siteCase{Alpha: c.Alpha, Rows: c.Rows, P: c.P, Q: c.Q, Ends: c.Ends}
-			switch {
-			case isGap:
-				// gaps: the fraction of '-' among the rows not excluded by --ignore-n (fix 494299f:
-				// the flag is honoured with --char GAP too); --ignore-case has no effect on '-'
-				sc.Op, sc.Chars, sc.IN = "char", "-", c.IN
-			case c.Char == "MAJ":
-				sc.Op, sc.IG, sc.IN = "maj", c.IG, c.IN
-			default:
-				sc.Op, sc.Chars, sc.IC, sc.IG, sc.IN, sc.Rev = "char", c.Char, c.IC, c.IG, c.IN, c.Rev
+		// the output: one block per alignment of the input
+		var blocks [][]gen.Row
+		if c.Phylip {
+			var perr error
+			if blocks, perr = parsePhylip(r.Stdout); perr != nil {
+				return o, fmt.Errorf("goalign %v: unreadable Phylip output: %v\n%q", args, perr, r.Stdout)
 			}
-			kept, e1 := readInts(posK)
-			rm, e2 := readInts(posR)
+		} else {
+			got, perr := cli.ParseFasta(r.Stdout)
+			if perr != nil {
+				return o, fmt.Errorf("goalign %v: unreadable output: %v", args, perr)
+			}
+			blocks = [][]gen.Row{got}
+		}
+		if len(blocks) != len(all) {
+			return o, fmt.Errorf("goalign %v: %d alignments written for %d alignments read\n%q", args, len(blocks), len(all), r.Stdout)
+		}
+		var keptAll, rmAll []int
+		var starts, ends [][]string
+		if c.Sub == "sites" {
+			var e1, e2 error
+			keptAll, e1 = readInts(posK)
+			rmAll, e2 = readInts(posR)
 			if e1 != nil || e2 != nil {
 				return o, fmt.Errorf("goalign %v: position files unreadable: %v %v", args, e1, e2)
 			}
-			states, anyTie, nEither := siteStates(sc, false)
-			// leading/trailing counts are printed on stderr unless -q
-			l := len(c.Rows[0])
-			inRm := make([]bool, l)
-			for _, v := range rm {
-				if v >= 0 && v < l {
-					inRm[v] = true
-				}
+			starts, ends = reStart.FindAllStringSubmatch(r.Stderr, -1), reEnd.FindAllStringSubmatch(r.Stderr, -1)
+			if !c.Quiet && (len(starts) != len(all) || len(ends) != len(all)) {
+				return o, fmt.Errorf("goalign %v: start/end counts printed %d/%d times for %d alignments: %q", args, len(starts), len(ends), len(all), r.Stderr)
 			}
-			first, last := 0, 0
-			for first < l && inRm[first] {
-				first++
-			}
-			for last < l && inRm[l-1-last] {
-				last++
-			}
-			if !c.Quiet {
-				ms, me := reStart.FindStringSubmatch(r.Stderr), reEnd.FindStringSubmatch(r.Stderr)
-				if ms == nil || me == nil {
-					return o, fmt.Errorf("goalign %v: start/end counts not printed: %q", args, r.Stderr)
-				}
-				first, _ = strconv.Atoi(ms[1])
-				last, _ = strconv.Atoi(me[1])
-				o.Class("counts-read-from-stderr")
-			}
-			if e := verifySites(c.Rows, c.Ends, states, first, last, kept, rm, got, -1); e != nil {
-				open := false
-				if sc.Op == "maj" && (c.P < 0 || c.P > c.Q) {
-					lit, _, _ := siteStates(sc, true)
-					open = verifySites(c.Rows, c.Ends, lit, first, last, kept, rm, got, -1) == nil
-				}
-				if !open {
-					return o, fmt.Errorf("goalign %v: %v\n input : %s\n output: %s", args, e, gen.Show(rows), gen.Show(got))
-				}
-				nEither++
-			}
-			o.Ambiguous = nEither
-			o.NonTrivial = (len(rm) > 0 && len(kept) > 0) || anyTie
-			o.Classes = append(o.Classes, optClass[sc.optMask()])
-			return o, nil
 		}
-		qc := seqCase{Alpha: c.Alpha, Rows: c.Rows, P: c.P, Q: c.Q, IN: c.IN}
-		if isGap {
-			qc.Op, qc.Char = "gap", "-"
-		} else {
-			qc.Op, qc.Char, qc.IC, qc.IG = "char", c.Char, c.IC, c.IG
+		for ai, alRows := range all {
+			got := blocks[ai]
+			var inRows []gen.Row
+			for i, r := range alRows {
+				inRows = append(inRows, gen.Row{Name: nameOf(i), Seq: r})
+			}
+			if c.Sub == "sites" {
+				sc := siteCase{Alpha: c.Alpha, Rows: alRows, P: c.P, Q: c.Q, Ends: c.Ends}
+				switch {
+				case isGap:
+					// gaps: the fraction of '-' among the rows not excluded by --ignore-n (fix 494299f:
+					// the flag is honoured with --char GAP too); --ignore-case has no effect on '-'
+					sc.Op, sc.Chars, sc.IN = "char", "-", c.IN
+				case c.Char == "MAJ":
+					sc.Op, sc.IG, sc.IN = "maj", c.IG, c.IN
+				default:
+					sc.Op, sc.Chars, sc.IC, sc.IG, sc.IN, sc.Rev = "char", c.Char, c.IC, c.IG, c.IN, c.Rev
+				}
+				// the part of the position files that belongs to this alignment: as many kept
+				// positions as its output block has columns, the other columns removed
+				l := len(alRows[0])
+				nk := 0
+				if len(got) > 0 {
+					nk = len(got[0].Seq)
+				}
+				if nk > l || len(keptAll) < nk || len(rmAll) < l-nk {
+					return o, fmt.Errorf("goalign %v: alignment %d keeps %d of %d columns, the position files have %d kept and %d removed entries left\n input : %s\n output: %s", args, ai, nk, l, len(keptAll), len(rmAll), gen.Show(inRows), gen.Show(got))
+				}
+				kept, rm := keptAll[:nk], rmAll[:l-nk]
+				keptAll, rmAll = keptAll[nk:], rmAll[l-nk:]
+				states, anyTie, nEither := siteStates(sc, false)
+				// leading/trailing counts are printed on stderr unless -q
+				inRm := make([]bool, l)
+				for _, v := range rm {
+					if v >= 0 && v < l {
+						inRm[v] = true
+					}
+				}
+				first, last := 0, 0
+				for first < l && inRm[first] {
+					first++
+				}
+				for last < l && inRm[l-1-last] {
+					last++
+				}
+				if !c.Quiet {
+					first, _ = strconv.Atoi(starts[ai][1])
+					last, _ = strconv.Atoi(ends[ai][1])
+					if ai == 0 {
+						o.Class("counts-read-from-stderr")
+					}
+				}
+				if e := verifySites(alRows, c.Ends, states, first, last, kept, rm, got, -1); e != nil {
+					open := false
+					if sc.Op == "maj" && (c.P < 0 || c.P > c.Q) {
+						lit, _, _ := siteStates(sc, true)
+						open = verifySites(alRows, c.Ends, lit, first, last, kept, rm, got, -1) == nil
+					}
+					if !open {
+						return o, fmt.Errorf("goalign %v: alignment %d of the file: %v\n input : %s\n output: %s", args, ai, e, gen.Show(inRows), gen.Show(got))
+					}
+					nEither++
+				}
+				o.Ambiguous += nEither
+				o.NonTrivial = o.NonTrivial || (len(rm) > 0 && len(kept) > 0) || anyTie
+				if ai == 0 {
+					o.Classes = append(o.Classes, optClass[sc.optMask()])
+				}
+				continue
+			}
+			qc := seqCase{Alpha: c.Alpha, Rows: alRows, P: c.P, Q: c.Q, IN: c.IN}
+			if isGap {
+				qc.Op, qc.Char = "gap", "-"
+			} else {
+				qc.Op, qc.Char, qc.IC, qc.IG = "char", c.Char, c.IC, c.IG
+			}
+			states, anyTie, nEither := seqStates(qc)
+			removed, e := verifySeqs(alRows, states, got, 0, false)
+			if e != nil {
+				return o, fmt.Errorf("goalign %v: alignment %d of the file: %v\n input : %s\n output: %s", args, ai, e, gen.Show(inRows), gen.Show(got))
+			}
+			o.Ambiguous += nEither
+			o.NonTrivial = o.NonTrivial || (removed > 0 && removed < len(alRows)) || anyTie
+			if ai == 0 {
+				o.Classes = append(o.Classes, "seq-"+optClass[qc.optMask()])
+			}
 		}
-		states, anyTie, nEither := seqStates(qc)
-		removed, e := verifySeqs(c.Rows, states, got, 0, false)
-		if e != nil {
-			return o, fmt.Errorf("goalign %v: %v\n input : %s\n output: %s", args, e, gen.Show(rows), gen.Show(got))
+		if len(keptAll) != 0 || len(rmAll) != 0 {
+			return o, fmt.Errorf("goalign %v: the position files hold %d kept and %d removed entries more than the %d alignments have columns", args, len(keptAll), len(rmAll), len(all))
 		}
-		o.Ambiguous = nEither
-		o.NonTrivial = (removed > 0 && removed < len(c.Rows)) || anyTie
-		o.Classes = append(o.Classes, "seq-"+optClass[qc.optMask()])
 		return o, nil
 	})
+}
+
+// parsePhylip reads sequential one-line Phylip blocks: " n l" followed by n lines "name  residues"
+// (the residues are missing when l is 0; "0 -1" is an alignment without sequences)
+func parsePhylip(out string) ([][]gen.Row, error) {
+	lines := strings.Split(out, "\n")
+	if len(lines) > 0 && lines[len(lines)-1] == "" {
+		lines = lines[:len(lines)-1]
+	}
+	var blocks [][]gen.Row
+	for k := 0; k < len(lines); {
+		hd := strings.Fields(lines[k])
+		if len(hd) != 2 {
+			return nil, fmt.Errorf("line %d: header expected, got %q", k, lines[k])
+		}
+		n, e1 := strconv.Atoi(hd[0])
+		l, e2 := strconv.Atoi(hd[1])
+		if e1 != nil || e2 != nil || n < 0 {
+			return nil, fmt.Errorf("line %d: bad header %q", k, lines[k])
+		}
+		k++
+		rows := []gen.Row{}
+		if l == 0 && (k >= len(lines) || len(strings.Fields(lines[k])) != 1) {
+			// the Phylip writer prints no row at all for an alignment of length 0: the n rows are
+			// taken as present with empty residues (their names cannot be read)
+			for i := 0; i < n; i++ {
+				rows = append(rows, gen.Row{Name: nameOf(i)})
+			}
+			blocks = append(blocks, rows)
+			continue
+		}
+		if n < 0 || k+n > len(lines) {
+			return nil, fmt.Errorf("line %d: %d rows announced, %d lines left", k-1, n, len(lines)-k)
+		}
+		for i := 0; i < n; i++ {
+			f := strings.Fields(lines[k+i])
+			switch {
+			case len(f) == 2:
+				rows = append(rows, gen.Row{Name: f[0], Seq: f[1]})
+			case len(f) == 1 && l == 0:
+				rows = append(rows, gen.Row{Name: f[0]})
+			default:
+				return nil, fmt.Errorf("line %d: name and residues expected, got %q", k+i, lines[k+i])
+			}
+			if len(rows[i].Seq) != l && !(l <= 0 && rows[i].Seq == "") {
+				return nil, fmt.Errorf("line %d: %d residues announced, %q", k+i, l, lines[k+i])
+			}
+		}
+		k += n
+		blocks = append(blocks, rows)
+	}
+	return blocks, nil
 }
